@@ -26,6 +26,7 @@ func (f *Federation) OnSubscribedWrapper(pre server.OnSubscribed) server.OnSubsc
 			if !f.localSubStore.subscribe(client.ClientOptions().ClientID, subscription.GetFullTopicName()) {
 				return
 			}
+			verifYield("fed.subscribed.counted")
 			// only send new subscription
 			f.memberMu.Lock()
 			defer f.memberMu.Unlock()
@@ -49,6 +50,7 @@ func (f *Federation) OnUnsubscribedWrapper(pre server.OnUnsubscribed) server.OnU
 		if !f.localSubStore.unsubscribe(client.ClientOptions().ClientID, topicName) {
 			return
 		}
+		verifYield("fed.unsubscribed.counted")
 		// only unsubscribe topic if there is no local subscriber anymore.
 		f.memberMu.Lock()
 		defer f.memberMu.Unlock()
